@@ -286,6 +286,50 @@ def traces(rep, tier):
     rep.bounded.append(dict(kind='decorated vs undecorated traces (results, exceptions, finalisation log) on real generator objects (bounded stand-in, NOT counted as proved)', cases=cases, failing=len(bad),
                             bound=f'{len(BODIES)} async + {len(SBODIES)} sync bodies x all sequences of <= {maxlen} operations over {OPS}'))
 
+def call_forms(rep):
+    """(G, structural on the captured wrapper text) whatever the return hint, the wrapper of a coroutine function AWAITS every call of the
+    original (`await __beartype_func(...)`), the wrapper of a generator function delegates with `yield from`, a plain function is called
+    plainly - the call form comes from the kind of the callable, never from the shape of its return hint."""
+    from pyvc import capture
+    from beartype import beartype
+    import collections.abc as cabc, typing
+    capture.install(); capture.drain()
+    RET = {'coro': ['int', 'None', 'NoReturn', 'Never', 'Coroutine[None, None, int]', 'Coroutine[None, None, NoReturn]', 'list[int]', 'object', ''],
+           'gen': ['Generator[int, None, None]', 'Iterator[int]', 'Iterable[int]'], 'plain': ['int', 'NoReturn', 'None', 'list[int]', '']}
+    ns = dict(vars(typing)); ns.update(Generator=cabc.Generator, Iterator=cabc.Iterator, Iterable=cabc.Iterable, Coroutine=cabc.Coroutine)
+    n = 0
+    for kind, rets in RET.items():
+        for r in rets:
+            ann = f' -> {r}' if r else ''
+            src = {'coro': f'async def f(x: int){ann}:\n    raise ValueError(x)\n', 'gen': f'def f(x: int){ann}:\n    yield x\n', 'plain': f'def f(x: int){ann}:\n    raise ValueError(x)\n'}[kind]
+            d = dict(ns)
+            try:
+                exec(src, d); capture.drain(); beartype(d['f']); caps = capture.drain()
+            except Exception as e:
+                continue      # a hint beartype refuses at decoration time for this kind of callable
+            if not caps: continue
+            tree = ast.parse(caps[-1].code); fn = tree.body[0]
+            calls = [c for c in ast.walk(fn) if isinstance(c, ast.Call) and isinstance(c.func, ast.Name) and c.func.id == '__beartype_func']
+            parents = {}
+            for p_ in ast.walk(fn):
+                for ch in ast.iter_child_nodes(p_): parents[id(ch)] = p_
+            def form(c):
+                p1 = parents.get(id(c))
+                return 'await' if isinstance(p1, ast.Await) else 'yield from' if isinstance(p1, ast.YieldFrom) else 'plain'
+            want = {'coro': 'await', 'gen': 'yield from', 'plain': 'plain'}[kind]
+            if kind == 'gen':
+                # the generator object is created by one plain call (and checked shallowly), then delegated to as a whole by `yield from`
+                yf = [y for y in ast.walk(fn) if isinstance(y, ast.YieldFrom)]
+                assigned = {t.id for a_ in ast.walk(fn) if isinstance(a_, ast.Assign) and a_.value in calls for t in a_.targets if isinstance(t, ast.Name)}
+                ok = len(calls) == 1 and len(yf) == 1 and ((isinstance(yf[0].value, ast.Name) and yf[0].value.id in assigned) or yf[0].value in calls) and not isinstance(fn, ast.AsyncFunctionDef)
+                want = 'one plain call delegated by `yield from`'
+            else:
+                ok = bool(calls) and all(form(c) == want for c in calls) and isinstance(fn, ast.AsyncFunctionDef) == (kind == 'coro')
+            n += 1
+            rep.add(f'C08.call_form[{kind}{ann or " (no return hint)"}]', 'proved' if ok else 'refuted', backend='structural',
+                    where=f'{len(calls)} call(s) of the original in the captured wrapper, forms {[form(c) for c in calls]}, expected `{want}`', solver_output='resolved on the AST of the captured wrapper text')
+    if not n: rep.error('C08.call_forms: no wrapper captured')
+
 KIND_SRC = """
 import inspect, functools, asyncio, sys
 from beartype import beartype
@@ -342,7 +386,7 @@ def kinds_bounded(rep):
 
 def main(tier, seed):
     rep = report.Report('C08', tier, seed, 'proof', f'./check C08 --tier {tier}')
-    for fn in (relay, kinds):
+    for fn in (relay, kinds, call_forms):
         try: fn(rep)
         except Exception: rep.error(f'C08 {fn.__name__}: ' + traceback.format_exc()[-2500:])
     try: traces(rep, tier)
